@@ -398,8 +398,10 @@ def cli_load_cases(draw):
     m = draw(st.integers(0, 10))
     recs = [[draw(st.integers(0, n - 1)), draw(st.integers(0, n - 1)), draw(st.integers(1, 50))] for _ in range(m)]
     fmt = draw(st.sampled_from(["coo", "bg2", "bg2"]))
-    bad = draw(st.sampled_from([None] * 6 + ["neg", "beyond", "eq-len"])) if m else None
+    bad = draw(st.sampled_from([None] * 4 + ["neg", "beyond", "beyond", "beyond-both", "eq-len"])) if m else None
     if bad == "eq-len" and fmt == "coo":
+        bad = "beyond"
+    if bad == "beyond-both" and fmt != "coo":
         bad = "beyond"
     return {"part": "cli_load", "bt": bt, "records": recs, "fmt": fmt, "one_based": draw(st.booleans()),
             "copy": draw(st.sampled_from(["unique", "unique", "duplex", "square", "square-duplex"])),
@@ -427,6 +429,8 @@ def check_cli_load(case, ctx: Ctx):
                 ids[case["bad_side"]] = -1
             elif bad == "beyond":
                 ids[case["bad_side"]] = n
+            elif bad == "beyond-both":
+                ids = [n + case["bad_side"], n + 1]       # both ids outside the matrix (still upper-triangular)
             if bad and tril == "drop" and ids[0] > ids[1]:
                 # in duplex mode every lower-triangle record is discarded as selected - including this one, whose
                 # out-of-range id makes it a lower-triangle record; discarding it is not a mis-assignment
@@ -471,7 +475,7 @@ def check_cli_load(case, ctx: Ctx):
         if case["copy"] in ("square", "square-duplex"):
             args.append("-N")
         rc, _, exc = run_cli(args)
-        if case["bad"] in ("neg", "beyond") and not bad_dropped_as_lower:
+        if case["bad"] in ("neg", "beyond", "beyond-both") and not bad_dropped_as_lower:
             check(rc != 0, f"cooler load -f {fmt} accepted a record outside the matrix/chromosome ({case['bad']})")
             ctx.record(case, True, ["cli_load", "invalid-rejected", "fmt=" + fmt])
             return
